@@ -197,7 +197,7 @@ def prune_cache(max_bytes=3 * 1024 ** 3):
 
 def regenerate_models():
     """the .v files that are translated from /repo's current source (rewritten only when their content changes)"""
-    for script in ("translate_params.py", "translate_columns.py", "translate_facts.py", "translate_iteration.py", "translate_kernel.py", "translate_cellcycle.py", "translate_grid.py", "translate_broadphase.py", "translate_integrator.py", "translate_vec3.py", "translate_geometry.py", "translate_forces.py", "translate_narrowphase.py", "translate_refiner.py"):
+    for script in ("translate_params.py", "translate_columns.py", "translate_facts.py", "translate_iteration.py", "translate_kernel.py", "translate_cellcycle.py", "translate_grid.py", "translate_broadphase.py", "translate_integrator.py", "translate_vec3.py", "translate_geometry.py", "translate_forces.py", "translate_narrowphase.py", "translate_refiner.py", "translate_divider.py"):
         sp = os.path.join(HARNESS, script)
         if os.path.exists(sp):
             run([sys.executable, sp, REPO])
